@@ -58,6 +58,8 @@ func ChildMain(jobFile, outFile string) {
 		switch j.Mode {
 		case "replay":
 			r = Replay(j.Seed, j.Prog, j.Steps)
+		case "restartloop":
+			r = RestartLoop(j.Seed, j.Prog, j.Prog.Cycles)
 		case "window":
 			r = Window(j.Seed, j.Prog, j.Win[0], j.Win[1], j.Win[2], j.Win[3])
 		default:
@@ -385,6 +387,25 @@ func Run(c *core.Ctx) {
 		add(Job{Mode: "stress", Seed: c.Seed*1000 + int64(i), Prog: prog, Src: "stress"})
 	}
 
+	// (immediate restarts) the service is served again as soon as Shutdown has returned, while the
+	// previous Serve call may still be on its way out
+	for i := 0; i < c.Pick(30, 300); i++ {
+		prog := Program{Workers: []int{1, 2, 4, 32}[rng.Intn(4)], InCh: []int{0, 2}[rng.Intn(2)], Producers: map[string][]Sub{}, Shutdown: rng.Intn(2) == 0, Cycles: 4 + rng.Intn(8), Overtake: true}
+		for p := 0; p < 1+rng.Intn(2); p++ {
+			var subs []Sub
+			for k := 0; k < 10+rng.Intn(30); k++ {
+				subs = append(subs, Sub{Kind: []string{"with", "withgroup", "get", "pause"}[rng.Intn(4)], Group: []string{"g1", "g2", "g3", "par"}[rng.Intn(4)]})
+			}
+			prog.Producers[fmt.Sprintf("p%d", p+1)] = subs
+		}
+		if rng.Intn(2) == 0 {
+			prog.Api = []string{apiKinds[rng.Intn(len(apiKinds))]}
+		}
+		add(Job{Mode: "stress", Seed: c.Seed*1000 + 800 + int64(i), Prog: prog, Src: "immediate-restart"})
+	}
+	for i := 0; i < c.Pick(8, 24); i++ {
+		add(Job{Mode: "restartloop", Seed: c.Seed*1000 + 900 + int64(i), Prog: Program{Workers: []int{32, 32, 4, 32, 1, 32, 8, 32}[i%8], Cycles: c.Pick(5000, 20000)}, Src: "restart-loop"})
+	}
 	// (hot group) one group is fed faster than a worker drains it while other groups keep the remaining
 	// workers busy: long uninterrupted runs of one work item (hundreds of callbacks) next to waiting work
 	for i := 0; i < c.Pick(6, 60); i++ {
